@@ -24,7 +24,9 @@ pub enum In { Null, Bytes(Vec<u8>), File(PathBuf), Closed, /// a real pipe, writ
 #[derive(Clone, Debug, PartialEq)]
 pub enum Out { Capture, File(PathBuf), DevFull, ClosedPipe, Null }
 #[derive(Clone, Debug)]
-pub struct Cmd { pub args: Vec<OsString>, pub env: Vec<(String, String)>, pub stdin: In, pub stdout: Out, pub cwd: PathBuf, pub timeout_ms: u64 }
+pub struct Cmd { pub args: Vec<OsString>, pub env: Vec<(String, String)>, pub stdin: In, pub stdout: Out, pub cwd: PathBuf, pub timeout_ms: u64,
+    /// largest file the process may write, in 512-byte blocks (a write beyond it fails with EFBIG): a full disk / quota in miniature
+    pub fsize_blocks: Option<u64> }
 #[derive(Clone, Debug)]
 pub struct Run { pub code: Option<i32>, pub signal: Option<i32>, pub stdout: Vec<u8>, pub stderr: Vec<u8>, pub timed_out: bool }
 impl Run {
@@ -43,7 +45,10 @@ pub fn run(c: &Cmd) -> Run {
     static SEQ: AtomicU64 = AtomicU64::new(0);
     let io = scratch_root().join(format!("kverif-io-{}-{}", std::process::id(), SEQ.fetch_add(1, Ordering::Relaxed)));
     let _ = std::fs::create_dir_all(&io);
-    let mut cmd = Command::new(kestrel_bin());
+    let mut cmd = match c.fsize_blocks {
+        None => Command::new(kestrel_bin()),
+        Some(b) => { let mut s = Command::new("/bin/sh"); s.arg("-c").arg(format!("trap '' XFSZ; ulimit -f {}; exec \"$0\" \"$@\"", b)).arg(kestrel_bin()); s }
+    };
     cmd.args(&c.args).env_clear().current_dir(&c.cwd);
     for (k, v) in &c.env { cmd.env(k, v); }
     match &c.stdin {
@@ -91,7 +96,7 @@ impl Sandbox {
     pub fn path(&self, name: &str) -> PathBuf { self.dir.join(name) }
     pub fn write(&self, name: &str, data: &[u8]) -> PathBuf { let p = self.path(name); std::fs::write(&p, data).expect("write temp file"); p }
     pub fn read(&self, name: &str) -> Option<Vec<u8>> { std::fs::read(self.path(name)).ok() }
-    pub fn cmd(&self, a: &[&str]) -> Cmd { Cmd { args: args(a), env: vec![], stdin: In::Null, stdout: Out::Capture, cwd: self.dir.clone(), timeout_ms: 60_000 } }
+    pub fn cmd(&self, a: &[&str]) -> Cmd { Cmd { args: args(a), env: vec![], stdin: In::Null, stdout: Out::Capture, cwd: self.dir.clone(), timeout_ms: 60_000, fsize_blocks: None } }
 }
 impl Drop for Sandbox { fn drop(&mut self) { let _ = std::fs::remove_dir_all(&self.dir); } }
 impl Cmd {
